@@ -75,3 +75,15 @@ Proof. split; vm_compute; reflexivity. Qed.
 (* no binary operator token is an assignment operator or starts a declaration *)
 Theorem binop_not_assign : forallb (fun e => negb (kmem (fst e) tbl_ASSIGNMENT_OPS)) tbl_BINARY_PRECEDENCE = true.
 Proof. vm_compute. reflexivity. Qed.
+
+(* ---- the generator's precedence table mirrors the parser's ----------------------------- *)
+From PV Require Import GenTables.
+Definition punct_kind_l (s: list N) : option kind :=
+  option_map fst (find (fun e => str_eqb (snd e) s) fixed_tokens).
+
+Theorem generator_precedence_mirrors_parser :
+  forallb (fun e => match punct_kind_l (fst e) with
+                    | Some k => match prec_lookup k with Some p => Nat.eqb p (snd e) | None => false end
+                    | None => false end) gen_precedence_map = true
+  /\ List.length gen_precedence_map = List.length tbl_BINARY_PRECEDENCE.
+Proof. split; vm_compute; reflexivity. Qed.
